@@ -181,6 +181,7 @@ def statements_lock_check(prop):
 
 
 def relock():
+    coq_build([])
     lines = []
     for pin in sorted(glob.glob(os.path.join(COQ, "pins/*.v"))):
         prop = os.path.basename(pin)[:-2]
